@@ -12,6 +12,7 @@
 -/
 import EasyMl.Lemmas.PartitionGrid
 import EasyMl.Lemmas.LiveView
+import EasyMl.Lemmas.MatrixEq
 
 namespace EasyMl.C12
 open EasyMl EasyMl.Spec EasyMl.Fallible EasyMl.MatrixView
@@ -108,6 +109,45 @@ example :
       e.cell 1 0 = none ∧ e.cell usizeMax usizeMax = none := by
   refine ⟨by simp only [MExpr.LeavesOk]; decide, by decide, by decide, by decide, by decide,
     by decide, by decide⟩
+
+/-! ## `data_layout` and equality -/
+
+/-- The layout a nested view reports (each adaptor's `data_layout()`, incl. the translation to
+    the tensor vocabulary and back in the two interop wrappers) is that of its source for
+    ranges, maps and the tensor round trip, and `Other` after a reversal. -/
+theorem layout_eq_spec (e : MExpr) : e.layout = e.layoutSpec := e.layout_eq_spec
+
+/-- **matrix_eq_iff.**  `matrix_equality` — the one function behind `MatrixView == MatrixView`,
+    `MatrixView == Matrix` and `Matrix == MatrixView` — answers `true` exactly when the two
+    sources have the same size and equal elements at every index … -/
+theorem matrix_eq_iff (l r : Grid) :
+    matrixEquality l r = true ↔
+      l.rows = r.rows ∧ l.columns = r.columns ∧
+      ∀ i j, i < l.rows → j < l.columns → l.elem i j = r.elem i j :=
+  matrixEquality_iff l r
+
+/-- … so the answer does not depend on the layouts of the operands (the column-major fast path
+    and the row-major path agree), nor on which operand is on the left. -/
+theorem matrix_eq_layout_irrelevant (l r : Grid) (ll lr : MLayout) :
+    matrixEquality { l with layout := ll } { r with layout := lr } = matrixEquality l r ∧
+    matrixEquality l r = matrixEquality r l := by
+  constructor
+  · rw [Bool.eq_iff_iff, matrixEquality_iff, matrixEquality_iff]; rfl
+  · rw [Bool.eq_iff_iff, matrixEquality_iff, matrixEquality_iff]
+    simp only [gridEqSpec]
+    constructor
+    · rintro ⟨h1, h2, h3⟩
+      exact ⟨h1.symm, h2.symm, fun i j hi hj => (h3 i j (h1 ▸ hi) (h2 ▸ hj)).symm⟩
+    · rintro ⟨h1, h2, h3⟩
+      exact ⟨h1.symm, h2.symm, fun i j hi hj => (h3 i j (h1 ▸ hi) (h2 ▸ hj)).symm⟩
+
+/-- Non-vacuity: equal 2×2 sources in different layouts; a difference in one cell; in the size. -/
+example :
+    matrixEquality ⟨2, 2, .columnMajor, fun i j => i * 2 + j⟩ ⟨2, 2, .rowMajor, fun i j => i * 2 + j⟩ = true ∧
+    matrixEquality ⟨2, 2, .columnMajor, fun i j => i * 2 + j⟩
+      ⟨2, 2, .columnMajor, fun i j => if i = 1 ∧ j = 0 then 9 else i * 2 + j⟩ = false ∧
+    matrixEquality ⟨2, 2, .rowMajor, fun _ _ => 0⟩ ⟨2, 3, .rowMajor, fun _ _ => 0⟩ = false := by
+  refine ⟨by decide, by decide, by decide⟩
 
 /-! ## Views whose source changes after construction (`source_ref_mut`, `source_ref`, `source`) -/
 
